@@ -272,9 +272,32 @@ def parse_coq_value(text):
     return v
 
 
+_BUILT = set()
+
+
+def ensure_built(header):
+    """Make sure every VZ module a generated cases file requires is compiled (the proof gate only builds what the
+    property files depend on; executable-only model files are otherwise built by setup.sh alone)."""
+    mods = []
+    for m in re.finditer(r"From\s+VZ\s+Require\s+(.*?)\.\s*(?:\n|$)", header, flags=re.S):
+        for tok in m.group(1).split():
+            if tok not in ("Import", "Export") and re.match(r"[A-Za-z_][\w']*(\.[A-Za-z_][\w']*)*$", tok):
+                mods.append(tok)
+    targets = ["theories/%s.vo" % x.replace(".", "/") for x in mods]
+    targets = [t for t in targets if t not in _BUILT and os.path.exists(os.path.join(COQ, t[:-1]))]
+    missing = [t for t in targets if not os.path.exists(os.path.join(COQ, t))
+               or os.path.getmtime(os.path.join(COQ, t)) < os.path.getmtime(os.path.join(COQ, t[:-1]))]
+    if missing:
+        rc, out = coq_make(missing)
+        if rc != 0:
+            raise RuntimeError("could not build %s:\n%s" % (missing, out[-2000:]))
+    _BUILT.update(targets)
+
+
 def coq_eval(tag, header, exprs, timeout=900):
     """Evaluate each Coq expression with vm_compute inside one coqc run; returns the parsed values.
     `header` holds the Require/Import lines and any local definitions."""
+    ensure_built(header)
     d = os_makedirs(os.path.join(WORK, "cases"))
     name = re.sub(r"\W", "_", "cases_%s_%d" % (tag, os.getpid()))
     path = os.path.join(d, name + ".v")
